@@ -19,6 +19,7 @@ FILE_CHECKS = {
     'cmdline/io.c': ['C13', 'C08'],
     'cmdline/elem.c': ['C18', 'C10', 'C06', 'C04', 'C05', 'C11'],
     'cmdline/stream.c': ['C09', 'C10', 'C08', 'C16'],
+    'cmdline/support.c': ['C12', 'C08', 'C01'], 'cmdline/rehash.c': ['C04', 'C06'],
     'cmdline/status.c': ['C20'], 'cmdline/pool.c': ['C20', 'C12'], 'cmdline/dup.c': ['C20'], 'cmdline/touch.c': ['C12'],
     'cmdline/import.c': ['C19'], 'cmdline/search.c': ['C19'], 'cmdline/snapraid.c': ['C14', 'C15', 'C16', 'C12', 'C07', 'C09'],
 }
